@@ -89,7 +89,7 @@ def Node.restart (n : Node) (fresh : Node) : Option Node :=
     match acc with
     | none => none
     | some m =>
-      let (id, strat) := loadMeta m.fs name m.dbs.length
+      let (id, strat) := loadMeta m.fs name (nextDbId m.dbs)
       match loadDb m.fs name m.clock with
       | (.ok map, clock) =>
         let db : Db := { name, id, strategy := strat, map, watchers := [], conns := 0 }
